@@ -23,19 +23,21 @@ Record ecfg := mkecfg { e_big : bool; e_compressed : bool; e_local : N; e_protov
 
 (* ---------------------------------------------------------------- scaleoffset.DiscardValue *)
 (* Go float64 -> intN conversion on amd64: CVTTSD2SQ (int64, 0x8000000000000000 when out of range / NaN), then the low bits *)
-Definition f64_to_i64_bits (f : float) : N :=
-  match f64_trunc f with
+Definition f64_to_i64_bits_m (m : conv_mode) (f : float) : N :=
+  match f64_to_Z m f with
   | Some z => if ((- 9223372036854775808 <=? z) && (z <? 9223372036854775808))%Z then Z.to_N (z mod 18446744073709551616)%Z else two63
   | None => two63
   end.
 (* uint64(f): values >= 2^63 go through f - 2^63 *)
-Definition f64_to_u64_bits (f : float) : N :=
-  match f64_trunc f with
+Definition f64_to_u64_bits_m (m : conv_mode) (f : float) : N :=
+  match f64_to_Z m f with
   | Some z => if ((0 <=? z) && (z <? 18446744073709551616))%Z then Z.to_N z
               else if ((- 9223372036854775808 <=? z) && (z <? 0))%Z then Z.to_N (z mod 18446744073709551616)%Z else two63
   | None => two63
   end.
-Definition discard_elt (base : N) (x : N) (scale offset : float) : option (ntype * N) :=
+Definition discard_elt (m : conv_mode) (base : N) (x : N) (scale offset : float) : option (ntype * N) :=
+  let f64_to_i64_bits := f64_to_i64_bits_m m in
+  let f64_to_u64_bits := f64_to_u64_bits_m m in
   let dv := so_discard (f64_of_bits x) scale offset in
   match bt_ntype base with
   | Some TU8 => if base =? bt_enum then None else Some (TU8, wrap 8 (f64_to_i64_bits dv))
@@ -56,7 +58,7 @@ Definition discard_value (v : value) (base : N) (scale offset : float) : value :
       | Some TF64 => VNum TF64 (if f64_is_nan_bits x then N.lor x 2251799813685248
                                 else if is_one scale && is_zero offset then x else f64_bits (so_discard (f64_of_bits x) scale offset))
       | Some TF32 | Some TBool | None => v
-      | _ => match discard_elt base x scale offset with Some (t, y) => VNum t y | None => v end
+      | _ => match discard_elt mode_discard_value base x scale offset with Some (t, y) => VNum t y | None => v end
       end
   | VArr TF64 l =>
       match bt_ntype base with
@@ -64,7 +66,7 @@ Definition discard_value (v : value) (base : N) (scale offset : float) : value :
                                 else if is_one scale && is_zero offset then x else f64_bits (so_discard (f64_of_bits x) scale offset)) l)
       | Some TF32 | Some TBool | None => v
       | Some t => if base =? bt_enum then v else
-                  VArr t (map (fun x => match discard_elt base x scale offset with Some (_, y) => y | None => 0 end) l)
+                  VArr t (map (fun x => match discard_elt (if is_one scale && is_zero offset then mode_discard_slice_unscaled else mode_discard_slice) base x scale offset with Some (_, y) => y | None => 0 end) l)
       end
   | _ => v
   end.
